@@ -196,6 +196,7 @@ func (s *SubscriptionManager[C, T]) Disconnect(clientID C) bool {
 // Returns true if the client successfully subscribed to the topic.
 func (s *SubscriptionManager[C, T]) Subscribe(clientID C, topic T) bool {
 	clientDropped := false
+	clientNotConnected := false
 	var removedTopics, unsubscribedTopics []T
 	topicAdded := false
 
@@ -207,6 +208,8 @@ func (s *SubscriptionManager[C, T]) Subscribe(clientID C, topic T) bool {
 		// check if the client is connected
 		subscribedTopics, has := s.subscribers.Get(clientID)
 		if !has {
+			clientNotConnected = true
+
 			return
 		}
 
@@ -255,6 +258,11 @@ func (s *SubscriptionManager[C, T]) Subscribe(clientID C, topic T) bool {
 		s.events.ClientDisconnected.Trigger(&ClientEvent[C]{ClientID: clientID})
 
 		// do not fire the subscribed events
+		return false
+	}
+
+	if clientNotConnected {
+		// nothing was subscribed
 		return false
 	}
 
